@@ -1915,7 +1915,7 @@ def g_garbage(rng, tier):
     # nothing but zeros (leading-zero precondition violated): the big-integer path may be entered with an empty integer
     for n in (19, 20, 21, 32, 100, 770, 800):
         for m in (0, 1, 25):
-            for e in (0, 5, 100, 280, 308, -5, -100, -342, 17, 38):
+            for e in (0, 5, 100, 160, 200, 280, 308, -5, -100, -342, 17, 38):
                 for fmt in ("f64", "f32"):
                     out.append({"fmt": fmt, "int": [{"d": [48], "n": n}], "frac": ([{"d": [48], "n": m}] if m else []), "exp": e, "raw": True,
                                 "tag": "C08:all-zeros"})
